@@ -1047,11 +1047,32 @@ def height(v):
         return 1 + max([0] + [height(x) for x in v])
     if t is dict:
         return 1 + max([0] + [max(height(k), height(x)) for k, x in v.items()])
+    if _sub_base(v) in (list, tuple):
+        return 1 + max([0] + [height(x) for x in v])
+    if _sub_base(v) is dict:
+        return 1 + max([0] + [max(height(k), height(x)) for k, x in v.items()])
     if hasattr(v, '__verif_call__'):
         if _hugged(v):
             return height(v.args[0])
         return 1 + max([0] + [height(x) for x in v.args] + [height(x) for _, x in v.kwargs])
     return 0
+
+
+def _sub_base(v):
+    """the built-in base of an instance of one of the generated subclasses (subclasses.py) that the depth reference knows: list / tuple /
+    dict containers and int / str leaves; None for everything else"""
+    t = type(v)
+    if getattr(t, '__module__', None) not in ('subclasses', '__main__', '_verif_private') or t is bool:
+        return None
+    for b in (list, tuple, dict, int, str):
+        if isinstance(v, b) and t is not b:
+            return b
+    return None
+
+
+def _sub_name(v):
+    t = type(v)
+    return t.__qualname__ if t.__module__ == '__main__' else '%s.%s' % (t.__module__, t.__qualname__)
 
 
 def _hugged(c):
@@ -1074,6 +1095,18 @@ def leaves_with_level(v, k=0, out=None):
             else:
                 leaves_with_level(key, k + 1, out)
             leaves_with_level(x, k + 1, out)
+    elif _sub_base(v) in (list, tuple):
+        for x in v:
+            leaves_with_level(x, k + 1, out)
+    elif _sub_base(v) is dict:
+        for key, x in v.items():
+            if isinstance(key, (str, bytes)):
+                out.append((key, k + 1, True))
+            else:
+                leaves_with_level(key, k + 1, out)
+            leaves_with_level(x, k + 1, out)
+    elif _sub_base(v) in (int, str):
+        out.append((int(v) if _sub_base(v) is int else str.__str__(v), k, False))        # identified by the underlying value
     elif hasattr(v, '__verif_call__'):
         # a call-style printed object: positional and keyword arguments alike sit one level below the call
         if _hugged(v):
@@ -1108,6 +1141,9 @@ def unique_tree(rng, depth=0):
             return 1000.5 + counter[0]
         if r < 0.93:
             return rng.choice(['', b''])          # empty literals are leaves like any other: str(...) / bytes(...) at the cut
+        if r < 0.96:
+            import subclasses as S
+            return S.make(rng, int, 5000 + counter[0]) if rng.random() < 0.6 else S.make(rng, str, 'u%d' % counter[0])
         return rng.choice([None, True, False, Ellipsis])
 
     def go(d):
@@ -1166,6 +1202,20 @@ def pruned_src(v, d, k=0, empties=()):
             return '{...}'
         return '{' + ', '.join((repr(a) if isinstance(a, (str, bytes)) else pruned_src(a, d, k + 1, empties)) + ': ' + pruned_src(b, d, k + 1, empties)
                                for a, b in _take_msl(list(v.items()))) + '}'
+    sb = _sub_base(v)
+    if sb is not None:
+        # an instance of a subclass of a built-in type is `Cls(<the underlying literal>)`: wrapper and literal are ONE level
+        name = _sub_name(v)
+        if cut:
+            # a scalar subclass is replaced as a whole; a container subclass keeps its wrapper around the literal's placeholder
+            return name + {int: '(...)', str: '(...)', list: '([...])', tuple: '((...))', dict: '({...})'}[sb]
+        if sb is int:
+            return '%s(%s)' % (name, int.__repr__(v))
+        if sb is str:
+            return '%s(%s)' % (name, str.__repr__(v))
+        if len(v) == 0:
+            return name + '()'
+        return '%s(%s)' % (name, pruned_src(sb(v), d, k, empties))
     if hasattr(v, '__verif_call__'):
         name = '%s.%s' % (v.fn.__module__, v.fn.__qualname__)
         if cut:
@@ -1301,10 +1351,40 @@ def depth_chunk(args):
     return n, nt, mism, fails
 
 
+def sole_subclass_argument_check():
+    """a call-style printed value whose only argument is an instance of a SUBCLASS of list / dict / tuple (ChainMap with one OrderedDict /
+    defaultdict / Counter map, a call object holding a subclass instance): the argument sits one level below the call, exactly as it
+    does as the only element of a list - at every depth its text inside the call equals its text inside a list"""
+    import collections
+    import subclasses as S
+    bad = []
+    rng = random.Random(7)
+    maps = [collections.OrderedDict([(1, [2, [3, [4]]]), (5, 6)]), collections.defaultdict(list, {1: [2, [3]]}), collections.Counter({'a': 2}),
+            S.make(rng, dict, {'k': [1, [2]]}), S.make(rng, list, [1, [2, [3]]]), S.make(rng, tuple, (1, (2,)))]
+    for m in maps:
+        wrappers = [('subclasses.Ctor', S.CallObj(S.Ctor, [m], []))]
+        if isinstance(m, dict):
+            wrappers.append(('collections.ChainMap', collections.ChainMap(m)))
+        for name, w in wrappers:
+            for d in (1, 2, 3, 4, None):
+                with warnings.catch_warnings():
+                    warnings.simplefilter('ignore')
+                    a = pp.pformat(w, depth=d, width=100000, ribbon_width=100000)
+                    b = pp.pformat([m], depth=d, width=100000, ribbon_width=100000)
+                if a != '%s(%s)' % (name, b[1:-1]):
+                    bad.append({'kind': 'depth', 'why': 'the sole argument of %s(...) is cut at another level than the sole element of a list: %r vs %r' % (name, a[:150], b[:150]),
+                                'value': repr(w)[:200], 'settings': (4, 100000, 100000, d, 1000, 0), 'text': a[:300]})
+                    break
+            if len(bad) >= 3:
+                return bad
+    return bad
+
+
 def depth_section(tier, seed):
     rng = random.Random(seed * 23 + 9)
     vals = [unique_tree(rng) for _ in range(900 if tier == 'quick' else 8000)]
     vals = [v for v in vals if isinstance(v, (list, tuple, dict, set, frozenset)) or hasattr(v, '__verif_call__')]
+    vals = [v for v in vals if _sub_base(v) not in (int, str)]
     vals += [frozenset([101, 102]), [frozenset([103]), 104], {'k1': frozenset([105, 's6'])}, (frozenset(),)]
     cases = [(v, rng.sample([1, 8, 20, 40, 79], 2)) for v in vals]
     chunks = [cases[i:i + 20] for i in range(0, len(cases), 20)]
@@ -1316,7 +1396,7 @@ def depth_section(tier, seed):
             nt += t
             mism.extend(mm)
             fails.extend(ff)
-    fails = list(fails) + limit_via_defaults_check('depth')
+    fails = list(fails) + limit_via_defaults_check('depth') + sole_subclass_argument_check()
     stats = {'evaluations': tot, 'distinct_nontrivial': nt, 'values': len(vals), 'mismatches': len(mism), 'limit_given_through_set_default_config': True,
              'samples': [{'value': repr(vals[0])[:200], 'depth': '0 .. height+2, None'}],
              'rule': 'container trees with unique leaves x depth in {0 .. height+2, None} x 2 widths; oracle: exactly the leaves nested in fewer than depth containers appear, depth > height == depth None'}
